@@ -126,6 +126,8 @@ class Ghost:
             self.closed[i] = True
         elif k == 'f':
             return i == 0 and self.usable(0)
+        elif k in PAIR:
+            return self.usable(i) and self.usable(args[1])
         else:
             return self.usable(i)
         return True
@@ -135,7 +137,8 @@ class Ghost:
 
 
 RESTACK = "RLFB"
-SIMPLE = "shtxgy"
+SIMPLE = "shtxgyqzP"      # calls on one usable window (q z P: set_pen with its own pen / NULL / a fresh pen)
+PAIR = "Qo"                # calls on two usable windows (set_pen with the other window's pen; scrollrect with it)
 
 
 def gen_wf_script(rnd, maxops, events, release):
@@ -160,6 +163,7 @@ def gen_wf_script(rnd, maxops, events, release):
         return rnd.choice([
             "c%d,u%d" % (i, i), "u%d" % i, "c%d,u%d" % (j, j), "u%d" % j, "c%d" % j, "r%d" % j, "R%d" % j, "h%d" % j,
             "L%d,c%d,u%d" % (j, j, j), "n%d.0" % j, "f0", "t%d" % j, "y%d" % j, "y%d" % i, "-", "-",
+            "q%d" % i, "Q%d.%d" % (i, j), "z%d,P%d" % (j, j), "o%d.%d" % (j, i),
         ])
 
     for _ in range(maxops):
@@ -184,8 +188,13 @@ def gen_wf_script(rnd, maxops, events, release):
         elif r < 0.78:
             i = pick(g.usable)
             if i is not None:
-                k = rnd.choice(SIMPLE + "S")
-                op = "S%d.%d" % (i, rnd.randint(0, 1)) if k == 'S' else k + str(i)
+                k = rnd.choice(SIMPLE + "S" + PAIR)
+                if k == 'S':
+                    op = "S%d.%d" % (i, rnd.randint(0, 1))
+                elif k in PAIR:
+                    op = "%s%d.%d" % (k, i, pick(g.usable))
+                else:
+                    op = k + str(i)
         elif r < 0.86:
             op = "f0" if g.usable(0) else None
         elif events and r < 0.93:
@@ -292,6 +301,14 @@ def gen_W(tier, seed, info):
                 for mask, evs in (("80", ["mp", "md", "mr"]), ("20", ["mp", "md", "md"]), ("a0", ["mp", "md", "md", "mr"])):
                     stats["exhaustive"] += 1
                     yield "W " + " ".join(pre + keep + ["b%d.m.10.1.-" % d, "b%d.m.%s.0.%s" % (d, mask, body)] + evs + ["f0"])
+    # window pens: every sequence of <= 3 pen calls over two windows (own pen, the other's pen, NULL, fresh, scroll
+    # with a pen), then the windows go in either order
+    pen_alpha = ["q1", "q2", "Q1.2", "Q2.1", "z1", "P1", "P2", "o1.2", "o2.2", "q0", "Q1.0"]
+    for n in range(1, 4 if tier == "quick" else 5):
+        for seq in itertools.product(pen_alpha, repeat=n):
+            for tear in (["u1", "u2", "f0"], ["u2", "u1", "u0"]):
+                stats["exhaustive"] += 1
+                yield "W n0.0 n0.0 " + " ".join(list(seq) + tear)
     info["exhaustive"] = True
     info["exhaustive_scope"] = ("W: 2 tree shapes (two siblings; parent+child) x every sequence of <= %d calls over %s; "
                                 "16 flag combinations x 3 depths x 6 teardown orders; 4 restack kinds x 2 targets in a 3-level chain x 10 teardown orders; self-unbinding handlers x 5 nested dispatches x 3 positions x 3 event kinds; leaf handlers destroying an ancestor (focus/steal x kept references x 7 bodies x key/mouse); drag sources whose DRAG_OUTSIDE/DRAG_STOP handlers release themselves and their ancestors (2 depths x 8-13 bodies x 3 kept references x 3 event sequences)" % (L, " ".join(alpha)))
@@ -411,6 +428,7 @@ def gen_O(tier, seed, info):
         "O T+m K+0 R1 u1", "O T+m r0 K+0 R1 u1 w0.6162 u0", "O T+m d0 Z0 k0 u0",
         "O T+x w0.6162 G0 F0 P+ a1.1 p0.1 h0.1 u1 u0", "O T+x P+ a1.3 p0.1 u1 u0", "O T+x P+ a1.3 h0.1 u1 u0",
         "O T+x r0 K+0 R1 u1 u0",
+        "O T+n", "O T+n T+n P+ u0", "O T+n T+m u0",
     ]
     for c in fixed:
         yield c
